@@ -181,11 +181,35 @@ def product_case(ctx: Ctx, stream: str, i: int) -> None:
     wrap = lambda items: jax.tree.unflatten(td, items)         # noqa: E731
     which = rng.choice(['row-diag', 'diag-col', 'diag-diag', 'row-col'])
     L, R = mk(), mk()
+    # block-wise products that collapse: inverses of the very same block objects, or identities on both sides —
+    # every product is then an identity (or all but one are), which the container must still account for
+    special = rng.choice(['none', 'none', 'inverse-pairs', 'identities', 'inverse-but-one'])
+    if special != 'none':
+        from furax._base.core import IdentityOperator
+        invertibles = []
+        for _ in range(n):
+            c = None
+            for _ in range(8):
+                c = rng.choice([gen.mk_diagonal, gen.mk_qurot, gen.mk_diagonal_first])(rng, s)
+                if c is not None:
+                    break
+            invertibles.append(c)
+        if special == 'identities' or any(c is None for c in invertibles):
+            L, R = [IdentityOperator(s) for _ in range(n)], [IdentityOperator(s) for _ in range(n)]
+            special = 'identities'
+        else:
+            L = invertibles
+            R = [c.I for c in invertibles]
+            if special == 'inverse-but-one':
+                R[rng.randrange(n)] = gen.gen_endo(rng, s, 0)
+            if rng.random() < 0.5:
+                L, R = R, L
     left = {'row-diag': BlockRowOperator, 'row-col': BlockRowOperator}.get(which, BlockDiagonalOperator)(wrap(L))
     right = {'diag-col': BlockColumnOperator, 'row-col': BlockColumnOperator}.get(which, BlockDiagonalOperator)(wrap(R))
     e = CompositionOperator([left, right])
     st, red = safe(e.reduce)
-    cfg = {'product': which, 'n': n, 'container': type(shape).__name__}
+    cfg = {'product': which, 'n': n, 'container': type(shape).__name__, 'blocks': special}
+    ctx.count('product-blocks:' + special)
     if st != 'ok':
         ctx.fail(stream, i, f'block-product-raises:{which}:{st}', str(red)[:150], cfg)
         return
@@ -196,7 +220,11 @@ def product_case(ctx: Ctx, stream: str, i: int) -> None:
                           for o in red.operands))
     if not simplified:
         ctx.fail(stream, i, f'block-product-not-simplified:{which}', f'{which} with equal layouts was not simplified', cfg)
-    if not gen.close(gen.dense(red), gen.dense(e)):
+    if not (gen.same_structure(red.in_structure(), e.in_structure()) and
+            gen.same_structure(red.out_structure(), e.out_structure())):
+        ctx.fail(stream, i, f'block-product-structure:{which}', 'the simplified product has other input/output '
+                 'structures than the product', cfg)
+    elif not gen.close(gen.dense(red), gen.dense(e)):
         ctx.fail(stream, i, f'block-product-wrong:{which}', 'the simplified product denotes another matrix', cfg)
     enc = Encoder()
     esx = enc.op(e)
